@@ -2,5 +2,5 @@ import TinkVerif.Props.C18Class
 /-! Report evaluated by ./check: regenerated mutation facts outside the allow-list. -/
 open TinkVerif.Gen.MutFacts
 def showFact (f : Fact) : String := s!"{f.pkg} {f.fn} {f.kind} {f.what}"
-#eval IO.println s!"NOTE: mutation facts={facts.length} scanned-packages={packagesScanned} allowed-owners={allowedOwners.length}"
+#eval IO.println s!"NOTE: mutation facts={facts.length} scanned-packages={packagesScanned} allowed-owners={allowedOwners.length} allowed-globals={allowedGlobals.length} allowed-field-facts={allowedFieldFacts.length} pool-variables={pools.length}"
 #eval (unexpected.map showFact).forM fun l => IO.println ("UNEXPECTED: mutation-fact " ++ l)
